@@ -177,7 +177,8 @@ fn split_body<const N: usize, const K: usize>() {
     let t: usize = kani::any();
     kani::assume(t < o1.len());
     assert!(o1[t] == o2[t]);
-    kani::cover!(o1.len() < N);
+    // the split list was merged back (the children of the split cell are gone)
+    kani::cover!(o2.len() < K);
     core::mem::forget(o1);
     core::mem::forget(o2);
 }
